@@ -9,6 +9,7 @@ package vsync
 import (
 	"bytes"
 	"fmt"
+	"os"
 	"runtime"
 	"sort"
 	"strconv"
@@ -24,11 +25,52 @@ var (
 	nextID  atomic.Int64
 
 	gmu    sync.Mutex
-	held   = map[int64][]int64{}  // goroutine -> locks held (acquisition order)
+	held   = map[int64][]int64{}   // goroutine -> locks held (acquisition order)
 	edges  = map[[2]int64]string{} // (held, acquired) -> example site
-	orders = map[string]int{}     // distinct acquisition sequences "a>b"
+	orders = map[string]int{}      // distinct acquisition sequences "a>b"
 	names  = map[int64]string{}
+	// hazards: a goroutine acquiring a lock it already holds. sync.Mutex / sync.RWMutex are not reentrant: Lock after
+	// Lock/RLock blocks forever, and RLock after RLock blocks forever as soon as another goroutine calls Lock in between
+	// (documented for sync.RWMutex: "prohibits recursive read locking"). Detected before the goroutine blocks.
+	hazards  = map[string]int64{} // description -> lock
+	handedOn = map[int64]bool{}   // locks released by another goroutine than the one that acquired them: not judged
 )
+
+// HazardFile (env VERIF_HAZARD_FILE): every new hazard is appended there at once, because the process may well be
+// deadlocked a moment later and never report anything else.
+func reportHazard(lock int64, text string) {
+	// caller holds gmu
+	if _, ok := hazards[text]; ok {
+		return
+	}
+	hazards[text] = lock
+	if fn := os.Getenv("VERIF_HAZARD_FILE"); fn != "" {
+		if f, err := os.OpenFile(fn, os.O_APPEND|os.O_CREATE|os.O_WRONLY, 0o644); err == nil {
+			fmt.Fprintf(f, "%d\t%s\n", lock, text)
+			_ = f.Close()
+		}
+	}
+}
+
+// preAcquire runs before the real lock call (which may block for good).
+func preAcquire(id *int64, what string) {
+	if !Enabled.Load() {
+		return
+	}
+	me := atomic.LoadInt64(id)
+	if me == 0 {
+		return
+	}
+	g := goid()
+	gmu.Lock()
+	for _, h := range held[g] {
+		if h == me && !handedOn[me] {
+			reportHazard(me, fmt.Sprintf("%s of %s at %s by a goroutine that already holds it (not reentrant: blocks forever, for read locks as soon as a writer waits in between)", what, names[me], caller()))
+			break
+		}
+	}
+	gmu.Unlock()
+}
 
 func goid() int64 {
 	var buf [64]byte
@@ -101,10 +143,24 @@ func release(id *int64) {
 	g := goid()
 	gmu.Lock()
 	hs := held[g]
+	found := false
 	for i := len(hs) - 1; i >= 0; i-- {
 		if hs[i] == me {
 			hs = append(hs[:i], hs[i+1:]...)
+			found = true
 			break
+		}
+	}
+	if !found {
+		// acquired by another goroutine (hand-over): this lock is used in a way the per-goroutine bookkeeping cannot follow
+		handedOn[me] = true
+		for og, l := range held {
+			for i := len(l) - 1; i >= 0; i-- {
+				if l[i] == me {
+					held[og] = append(l[:i], l[i+1:]...)
+					break
+				}
+			}
 		}
 	}
 	if len(hs) == 0 {
@@ -120,7 +176,7 @@ type Mutex struct {
 	id int64
 }
 
-func (m *Mutex) Lock()   { perturb(); m.mu.Lock(); acquire(&m.id, "Mutex") }
+func (m *Mutex) Lock()   { perturb(); preAcquire(&m.id, "Lock"); m.mu.Lock(); acquire(&m.id, "Mutex") }
 func (m *Mutex) Unlock() { release(&m.id); m.mu.Unlock(); perturb() }
 func (m *Mutex) TryLock() bool {
 	if m.mu.TryLock() {
@@ -135,9 +191,19 @@ type RWMutex struct {
 	id int64
 }
 
-func (m *RWMutex) Lock()    { perturb(); m.mu.Lock(); acquire(&m.id, "RWMutex") }
-func (m *RWMutex) Unlock()  { release(&m.id); m.mu.Unlock(); perturb() }
-func (m *RWMutex) RLock()   { perturb(); m.mu.RLock(); acquire(&m.id, "RWMutex") }
+func (m *RWMutex) Lock() {
+	perturb()
+	preAcquire(&m.id, "Lock")
+	m.mu.Lock()
+	acquire(&m.id, "RWMutex")
+}
+func (m *RWMutex) Unlock() { release(&m.id); m.mu.Unlock(); perturb() }
+func (m *RWMutex) RLock() {
+	perturb()
+	preAcquire(&m.id, "RLock")
+	m.mu.RLock()
+	acquire(&m.id, "RWMutex")
+}
 func (m *RWMutex) RUnlock() { release(&m.id); m.mu.RUnlock(); perturb() }
 
 // Inversions returns lock pairs that were acquired in both orders (potential deadlock), described
@@ -151,6 +217,11 @@ func Inversions() []string {
 			if site2, ok := edges[[2]int64{k[1], k[0]}]; ok {
 				out = append(out, fmt.Sprintf("%s then %s at %s; reverse order at %s", names[k[0]], names[k[1]], site, site2))
 			}
+		}
+	}
+	for h, lock := range hazards {
+		if !handedOn[lock] {
+			out = append(out, h)
 		}
 	}
 	sort.Strings(out)
@@ -170,5 +241,7 @@ func Reset() {
 	held = map[int64][]int64{}
 	edges = map[[2]int64]string{}
 	names = map[int64]string{}
+	hazards = map[string]int64{}
+	handedOn = map[int64]bool{}
 	gmu.Unlock()
 }
